@@ -83,6 +83,29 @@ def gen_tree(rs, depth=0):
     return node
 
 
+def cross_depth(tree, rs):
+    """instantiate a template that is used deeper in the hierarchy ALSO directly in the top entity, BEFORE the child whose
+    subtree uses it (the emitted library must still define every entity before its first user)"""
+    cands = []
+    for ci, ch in enumerate(tree["children"]):
+        stack = list(ch["children"])
+        while stack:
+            n = stack.pop()
+            cands.append((ci, n))
+            stack += n["children"]
+    if not cands or len(tree["children"]) >= 4:
+        return tree
+    import copy
+
+    ci, n = rs.choice(cands)
+    new = copy.deepcopy(n)
+    new["wire"] = {"b": rs.below(7), "e": rs.below(2), "yb_slice": rs.below(2)}
+    pos = ci if rs.below(3) else rs.range(0, len(tree["children"]))
+    tree["children"].insert(pos, new)
+    tree["cross_depth"] = True
+    return tree
+
+
 def template_key(n):
     return repr((n["kind"], n["k"], n["derived"], [template_key(c) for c in n["children"]], [c["wire"] for c in n["children"]]))
 
@@ -301,12 +324,18 @@ def evaluate(tree, seed, idx, tier):
 def run_one(seed, idx, tier):
     rs = rng.Stream(seed, "C12", "tree", idx)
     tree = gen_tree(rs)
+    if rs.below(3) == 0:
+        tree = cross_depth(tree, rs)
     res = {"idx": idx, "shape": hashlib.sha256(template_key(tree).encode()).hexdigest()[:14], "nodes": count_nodes(tree), "depth": depth_of(tree)}
     try:
         out = dutm.guarded(lambda: evaluate(tree, seed, idx, tier))
     except Exception:
         raise
     if len(out) == 2:
+        if out[0] == "legality" and out[1].get("rule") == "entity-order":
+            # part of THIS statement: sub-entities are emitted before the entities that use them
+            res.update(status="violation", vclass="entity-used-before-it-is-emitted", detail=out[1], payload={"tree": tree, "seed": seed, "idx": idx, "tier": tier})
+            return res
         if out[0] == "legality":
             res.update(status="skipped", reason="illegal-vhdl:" + str(out[1].get("rule")))
             return res
@@ -328,6 +357,8 @@ def run_one(seed, idx, tier):
 def replay(payload):
     out = dutm.guarded(lambda: evaluate(payload["tree"], payload["seed"], payload["idx"], payload["tier"]))
     if len(out) == 2:
+        if out[0] == "legality" and out[1].get("rule") == "entity-order":
+            return "entity-used-before-it-is-emitted", out[1]
         return out
     return (out[1] or out[0]), out[2]
 
